@@ -27,7 +27,7 @@ def run(ctx):
     rng = ctx.rng
     ctx.rule = ("real fits with a disconnection threshold at chosen quantiles of the pairwise distances (isolating none / some / most "
                 "samples), integer-lattice data with distances exactly at the threshold, bounded metrics at their default threshold, "
-                "dense / CSR / precomputed inputs, exact and forced-approximate paths, set_op_mix_ratio in {0,.5,1}: (a) no edge at or "
+                "dense / CSR / precomputed inputs, exact and forced-approximate paths, set_op_mix_ratio in {0,.5,1}, plus a weak-edge family (a sample whose edges all lie below max/n_epochs) and a refit-history family (unique=True fit, then unique=False refit of the same estimator): (a) no edge at or "
                 "beyond the threshold (float64 true distances), (b) NaN row <=> no edge <=> disconnected_vertices, other rows finite, "
                 "(c) transform of all-far / mixed / none-far / exactly-at-threshold batches; graph support vs the Lean model fed with the "
                 "recorded kNN table; non-trivial = at least one isolated and one non-isolated sample")
@@ -201,6 +201,70 @@ def run(ctx):
             if abs(a - b) > 5e-4:
                 ctx.mismatch("graph.value", {"entry": key, "impl": a, "model": b}, case)
                 break
+
+    # weak-edge family: a sample that *has* edges in graph_, all of them weaker than max/n_epochs (so the optimiser never uses
+    # them): it is not isolated, so its row must be finite and it must not be reported
+    for t in range(12 if ctx.thorough else 4):
+        mclus = int(rng.integers(10, 16))
+        std = float(rng.choice([0.05, 0.1, 0.2]))
+        X = np.vstack([rng.normal(scale=std, size=(mclus, 2)), [[float(rng.choice([1.0, 1.5, 2.0])), 0.0]], [[50.0, 50.0]]]).astype(np.float32)
+        n = len(X)
+        r = float(rng.choice([0.0, 0.02]))
+        ne = int(rng.choice([11, 5]))
+        init = str(rng.choice(["random", "spectral"]))
+        case = {"family": "weak-edge", "n": n, "r": r, "n_epochs": ne, "init": init, "X": X.tolist()}
+        try:
+            m = umap.UMAP(n_neighbors=n - 1, set_op_mix_ratio=r, n_epochs=ne, init=init, disconnection_distance=10.0, random_state=3).fit(X)
+        except Exception as e:  # noqa
+            ctx.violation("exception", f"fit raised {type(e).__name__}: {e}", case)
+            continue
+        G = m.graph_.tocsr()
+        no_edge = np.array([G[i].nnz == 0 for i in range(n)])
+        nan_row = np.isnan(m.embedding_).all(axis=1)
+        rep = np.asarray(disconnected_vertices(m))
+        if not np.array_equal(no_edge, nan_row):
+            ctx.violation("nan-iff-isolated", f"samples without an edge: {np.where(no_edge)[0].tolist()[:10]}, all-NaN rows: "
+                                              f"{np.where(nan_row)[0].tolist()[:10]} (edges weaker than max/n_epochs are still edges)", case)
+        if not np.array_equal(no_edge, rep):
+            ctx.violation("reported", f"disconnected_vertices reports {np.where(rep)[0].tolist()[:10]}, samples without an edge "
+                                      f"{np.where(no_edge)[0].tolist()[:10]}", case)
+        if np.any(~np.isfinite(m.embedding_[~nan_row])):
+            ctx.violation("finite-rows", "a non-isolated sample has a non-finite coordinate", case)
+        rowmax = np.array([G[i].max() if G[i].nnz else 0.0 for i in range(n)])
+        weak = (~no_edge) & (rowmax < G.max() / ne)
+        ctx.case(key="weak" + str(case["X"]) + str((r, ne)), nontrivial=bool(weak.any() and no_edge.any()), part="weak-edge",
+                 weak_samples=int(weak.sum()), r=r)
+
+    # history family: the same estimator fitted twice with different settings (unique=True on data with duplicates, then
+    # unique=False; a threshold, then none): what is reported must describe the *latest* fit
+    for t in range(6 if ctx.thorough else 2):
+        n = int(rng.integers(30, 50))
+        X1, _ = gen.dataset(rng, n, 3, kind="clusters")
+        X1[: n // 4] = X1[n // 4: 2 * (n // 4)]                 # duplicate rows
+        X2, _ = gen.dataset(rng, n + int(rng.integers(0, 5)), 3, kind="clusters")
+        X2[-2:] += 1000.0                                       # two samples far from everything (and from each other)
+        X2[-1] += 1000.0
+        case = {"family": "history", "n1": len(X1), "n2": len(X2), "X1": X1.tolist(), "X2": X2.tolist()}
+        try:
+            m = umap.UMAP(n_neighbors=5, unique=True, n_epochs=5, random_state=2)
+            m.fit(X1)
+            m.set_params(unique=False, disconnection_distance=100.0)
+            m.fit(X2)
+            G = m.graph_.tocsr()
+            n2 = len(X2)
+            no_edge = np.array([G[i].nnz == 0 for i in range(n2)])
+            nan_row = np.isnan(m.embedding_).all(axis=1)
+            rep = np.asarray(disconnected_vertices(m))
+        except Exception as e:  # noqa
+            ctx.violation("exception", f"refit history raised {type(e).__name__}: {e}", case)
+            continue
+        if len(rep) != n2 or not np.array_equal(no_edge, rep):
+            ctx.violation("reported", f"after refitting the same estimator, disconnected_vertices reports {np.where(rep)[0].tolist()[:10]} "
+                                      f"(length {len(rep)}), samples without an edge {np.where(no_edge)[0].tolist()[:10]} (n={n2})", case)
+        if not np.array_equal(no_edge, nan_row):
+            ctx.violation("nan-iff-isolated", f"after refit: samples without an edge {np.where(no_edge)[0].tolist()[:10]}, all-NaN rows "
+                                              f"{np.where(nan_row)[0].tolist()[:10]}", case)
+        ctx.case(key="hist" + str(case["X2"]), nontrivial=bool(no_edge.any()), part="history")
 
     # exactly-at-threshold transform: chebyshev on an integer grid, new point at distance exactly 5 from every training sample
     Xg = np.array([[0, 0], [1, 0], [0, 1], [1, 1], [2, 1], [1, 2], [2, 2], [0, 2], [2, 0], [1, 1.5]], dtype=np.float32)
